@@ -24,6 +24,9 @@ def run(res, tier, seed, replay):
     bases = [0x10000000 + rb.randrange(0x60000) * 4096, 0x80000000 + rb.randrange(0x7fff0) * 4096, 0x80000000 + rb.randrange(0x7fff0) * 4096, 0x100000000 + rb.randrange(0x100000) * 4096, 0x600000000000 - rb.randrange(1, 0x100000) * 4096]
     if tier == "thorough": bases += [0x80000000 + rb.randrange(0x7fff0) * 4096 for _ in range(12)] + [0x10000 + rb.randrange(0x7ff00) * 4096 for _ in range(12)]
     farat = [f"farat{b:x}" for b in bases]
+    # the fake just short of 2 GiB above / below the function (a band as wide as the allocator's +-128 MiB window): near for the function, not
+    # necessarily for its trampoline
+    farat += [f"farband{sg}{d:x}" for sg in "+-" for d in ([0x100000, 0x4000000] if tier == "quick" else [0x2000, 0x100000, 0x1000000, 0x4000000, 0x7f00000])]
     lines += [f"{m} {m} {max(16, n // 4)} {seed + 5 + i}" for i, m in enumerate(farat)]
     p = subprocess.run([exe, "abi"], input="\n".join(lines) + "\n", capture_output=True, text=True, timeout=600)
     seen = set()
